@@ -35,8 +35,11 @@ def gen_batch(rng):
             fields.append(["inner", {"dict": [["m", gen_tensor(rng, lens[(i + 1) % bs], trail, True)], ["n", {"int": i}]]}])
         if with_tuple:
             fields.append(["pair", {"tuple": [{"int": 1}, {"int": 2}]}])
+        if reorder and i > 0:
+            rng.shuffle(fields)                            # the same fields, inserted in another order than in the first example: fields are matched by key
         return {"dict": fields}
     nested, with_tuple = rng.random() < 0.5, rng.random() < 0.2
+    reorder = rng.random() < 0.3
     return [example(i) for i in range(bs)], lens
 
 
